@@ -1,12 +1,12 @@
 (* Props/C08.v — property C08 (sheet/import encoding precedence; serialised
    bytes decodable and lossless), statements only.
-   Model: Gen/GenEnc.v (ladder of _readUrl and hand-over of _setHref,
+   Model: Gen/GenEncoding.v (ladder of _readUrl and hand-over of _setHref,
    translated from the source on every run) + Model/Encoding.v.
    [precedence ov http explicit par] is the documented five-step rule written
    down directly (Proofs/EncodingFacts.v); trees are arbitrary finite import
    trees, so every statement covers chains of any depth. *)
 From Coq Require Import List NArith Bool.
-From CssV Require Import Base.Regex Base.Chars Base.Tokens Gen.GenLex Gen.GenEnc
+From CssV Require Import Base.Regex Base.Chars Base.Tokens Gen.GenLex Gen.GenEncoding
      Model.Tokenizer Model.Encoding Proofs.EncodingFacts.
 Import ListNotations.
 Local Open Scope N_scope.
